@@ -13,6 +13,11 @@ constant tables and escape pipelines that the hand model copies:
     chain of `.replace('<char>', "<text>")` calls that follows, in order
   * the white-space normalisation of reader/driver.rs (`unescape_text`, `get_attribute_value`): the chain of
     `.replace(<pattern>, "<text>")` calls, patterns being a string, a char or an array of chars, in order
+  * the string tables of the style enums (structs/underline_values.rs, font_scheme_values.rs,
+    vertical_alignment_run_values.rs, pattern_values.rs, border_style_values.rs, horizontal_alignment_values.rs,
+    vertical_alignment_values.rs): the `Self::V => "text"` arms of `EnumTrait::get_value_string`, the
+    `"text" => Ok(Self::V)` arms of `FromStr::from_str` (exactly one wildcard arm, which must be `Err`) and the
+    `Default` variant, order kept
 
 Rust string syntax handled: "..." with \\ \" \n \r \t \' \0 \\u{..} escapes, r"..." and r#"..."#, char literals.
 Anything else -> the committed snapshot of that definition is kept and the item is reported under "fallbacks".
@@ -384,6 +389,34 @@ def attr_write_table(path, lean):
                 f"def {lean} : List (String × String × String) :=\n  [" + ", ".join(f"({lean_str(a)}, {lean_str(b)}, {lean_str(c)})" for a, b, c in rows) + "]\n")
     return f
 
+# ------------------------------------------------------------------ C05 style enums (w19)
+STYLE_ENUMS = [("UnderlineValues", "underline_values"), ("FontSchemeValues", "font_scheme_values"),
+         ("VerticalAlignmentRunValues", "vertical_alignment_run_values"), ("PatternValues", "pattern_values"),
+         ("BorderStyleValues", "border_style_values"), ("HorizontalAlignmentValues", "horizontal_alignment_values"),
+         ("VerticalAlignmentValues", "vertical_alignment_values")]
+
+def style_enum_table(ty, stem):
+    """`impl EnumTrait for T` (`Self::V => "text"` arms, order kept), `impl FromStr for T` (`"text" => Ok(Self::V)` arms, order
+    kept, one wildcard arm) and `impl Default for T` of src/structs/<stem>.rs -> one triple"""
+    def f():
+        src = strip_comments(open(os.path.join(REPO, "src/structs", stem + ".rs")).read())
+        to = block_after(src, "impl EnumTrait for " + ty, "{", "}")
+        frm = block_after(src, "impl FromStr for " + ty, "{", "}")
+        dfl = block_after(src, "impl Default for " + ty, "{", "}")
+        d = [(m.group(1), lit_value(m)) for m in re.finditer(r"Self::(\w+)\s*=>\s*" + STR + r"\s*,", to)]
+        g = [(lit_value(m), m.group("v")) for m in re.finditer(STR + r"\s*=>\s*Ok\s*\(\s*Self::(?P<v>\w+)\s*\)", frm)]
+        dm = re.findall(r"Self::(\w+)", dfl)
+        if not d or not g or len(re.findall(r"=>", to)) != len(d) or len(re.findall(r"=>", frm)) != len(g) + 1 or len(dm) != 1:
+            raise ValueError("match arms of an unknown form")
+        if not re.search(r"_\s*=>\s*Err\s*\(", frm):
+            raise ValueError("no wildcard error arm")
+        pairs = lambda l: "[" + ", ".join(f"({lean_str(a)}, {lean_str(b)})" for a, b in l) + "]"
+        return (f"/-- translated from `src/structs/{stem}.rs`: `EnumTrait::get_value_string` of `{ty}` (variant ↦ text), its `FromStr`\n"
+                f"    (text ↦ variant; anything else is an error) and its `Default` variant -/\n"
+                f"def enum_{stem} : List (String × String) × List (String × String) × String :=\n"
+                f"  ({pairs(d)},\n   {pairs(g)},\n   {lean_str(dm[0])})\n")
+    return f
+
 VIEW_ITEMS = []
 for _path, _ty, _lean in (("src/structs/pane_values.rs", "PaneValues", "pane_values"), ("src/structs/pane_state_values.rs", "PaneStateValues", "pane_state_values"),
                           ("src/structs/sheet_view_values.rs", "SheetViewValues", "sheet_view_values"), ("src/structs/orientation_values.rs", "OrientationValues", "orientation_values")):
@@ -397,7 +430,8 @@ VIEW_ITEMS += [("sheet_protection_read_table", attr_read_table("src/structs/shee
 ITEMS = [("builtin_format_codes", builtin_formats), ("formula_errors", formula_errors), ("date_format_replacements", date_tables),
          ("cell_error_display", cell_errors), ("write_start_tag_escape", writer_pipelines), ("unescape_text_normalise", reader_pipelines),
          ("driver_shape", driver_shape)] + VIEW_ITEMS + \
-        [(lean, enum_table(path, rust, lean)) for lean, path, rust in ENUMS]
+        [(lean, enum_table(path, rust, lean)) for lean, path, rust in ENUMS] + \
+        [("enum_" + stem, style_enum_table(ty, stem)) for ty, stem in STYLE_ENUMS]
 
 HEADER = ("/-\n  GENERATED by tools/extract_tables.py from the current source of /repo — do not edit.\n"
           "  Constant tables and escape / normalisation pipelines the hand model copies.\n-/\n"
